@@ -24,10 +24,11 @@ def coq_nat(n):
     return '%d%%nat' % int(n)
 
 def coq_fault_plan(arg):
-    """faulty:<plan>: "-" | <i>:err:<IO|NOENT|PNOTEXIST> | <i>:short:<k>, joined by '+' (Model/Faulty.v)"""
+    """faulty:<plan>: "-" | <i>:err:<IO|NOENT|PNOTEXIST|PNOENT|NOTEXIST> | <i>:short:<k>, joined by '+' (Model/Faulty.v)"""
     if arg in ('', '-'):
         return '[]'
-    errs = {'IO': '(E KEIO)', 'NOENT': '(E KENOENT)', 'PNOTEXIST': '(EW KNotExist)'}
+    errs = {'IO': '(E KEIO)', 'NOENT': '(E KENOENT)', 'PNOTEXIST': '(EW KNotExist)',
+            'PNOENT': '(EW KENOENT)', 'NOTEXIST': '(E KNotExist)'}
     out = []
     for part in arg.split('+'):
         i, kind, a = part.split(':')
